@@ -1,6 +1,7 @@
 (** * ExprSem: [eval_ast] (the [_Translator] of dd/_parser.py run on a
       [dd.bdd] manager) computes the function obtained by reading the syntax
       tree with the documented operator meanings. *)
+From Coq Require Import Ascii.
 From stdpp Require Import strings pretty.
 From DD Require Export C01proof Quantify Subst Total ParsePrint.
 Local Open Scope string_scope.
@@ -61,16 +62,6 @@ Fixpoint ok_ast (s0 : st) (a : ast) : Prop :=
   | ASubst subs a => Forall (fun on => declared s0 on.2) subs ∧ ok_ast s0 a
   end.
 
-(** the propositional fragment *)
-Fixpoint prop_ast (a : ast) : Prop :=
-  match a with
-  | ABool _ | AVar _ | ANum _ => True
-  | AOp1 _ a => prop_ast a
-  | AOp2 _ a b => prop_ast a ∧ prop_ast b
-  | AIte a b c => prop_ast a ∧ prop_ast b ∧ prop_ast c
-  | AQuant _ _ _ | ASubst _ _ => False
-  end.
-
 (** ** [var] *)
 Lemma var_sem s n j r s' :
   Inv s → last_len s = None → vars s !! n = Some j → var n s = (r, s') →
@@ -120,7 +111,130 @@ Proof.
   by exists x.
 Qed.
 
-(** ** the propositional fragment, constants, [@n] *)
+(** ** quantifiers: [qsem] (over level assignments) is [qbool] (over names) *)
+Definition aof (s : st) (ρ : nat → bool) : nat → bool :=
+  fun l => match lvl2var s !! l with Some v => ρ v | None => false end.
+Lemma denv_aof s u ρ : denv s u ρ = D s u (aof s ρ).
+Proof. reflexivity. Qed.
+
+Lemma aof_upd s ρ x l c j : Inv s → vars s !! x = Some l →
+  aof s (upd ρ x c) j = upd (aof s ρ) l c j.
+Proof.
+  intros HI Hx. unfold aof, upd. destruct (decide (j = l)) as [->|Hne].
+  - rewrite (proj1 (inv_vars _ HI x l) Hx). by rewrite decide_True.
+  - destruct (lvl2var s !! j) as [v|] eqn:Ev; [|done].
+    rewrite decide_False; [done|]. intros ->.
+    apply (inv_vars _ HI) in Ev. congruence.
+Qed.
+
+Lemma qsem_cons s fa l q u a :
+  qsem s fa ({[l]} ∪ q) u a ↔
+  if fa then qsem s fa q u (upd a l true) ∧ qsem s fa q u (upd a l false)
+  else qsem s fa q u (upd a l true) ∨ qsem s fa q u (upd a l false).
+Proof.
+  assert (H1 : ∀ b c, agree_off q (upd a l c) b → agree_off ({[l]} ∪ q) a b).
+  { intros b c H j Hj. rewrite <- H by set_solver. rewrite upd_other; [done|set_solver]. }
+  assert (H2 : ∀ b, agree_off ({[l]} ∪ q) a b → agree_off q (upd a l (b l)) b).
+  { intros b H j Hj. destruct (decide (j = l)) as [->|Hne]; [by rewrite upd_same|].
+    rewrite upd_other by done. apply H. set_solver. }
+  unfold qsem. destruct fa.
+  - split.
+    + intros H. split; intros b Hb; apply H; by eapply H1.
+    + intros [Ht Hf] b Hb. destruct (b l) eqn:Ebl.
+      * apply Ht. rewrite <- Ebl. by apply H2.
+      * apply Hf. rewrite <- Ebl. by apply H2.
+  - split.
+    + intros (b&Hb&HD). destruct (b l) eqn:Ebl; [left|right]; exists b; (split; [|done]);
+        rewrite <- Ebl; by apply H2.
+    + intros [(b&Hb&HD)|(b&Hb&HD)]; exists b; (split; [|done]); by eapply H1.
+Qed.
+
+Lemma qsem_pointwise s fa q u a a' : (∀ j, a j = a' j) → qsem s fa q u a ↔ qsem s fa q u a'.
+Proof. intros H. apply qsem_agree. intros j _. apply H. Qed.
+
+Lemma qsem_qbool s fa u xs ls : Inv s → valid s u →
+  Forall2 (fun k l => vars s !! k = Some l) xs ls →
+  ∀ ρ, qsem s fa (list_to_set ls) u (aof s ρ) ↔ qbool fa xs (denv s u) ρ = true.
+Proof.
+  intros HI Hu. induction 1 as [|x l xs ls Hx _ IH]; intros ρ.
+  - cbn [qbool list_to_set]. rewrite denv_aof. apply qsem_const.
+    intros b Hb. apply D_ext. intros j. symmetry. by apply (proj1 (agree_off_empty _ _) Hb).
+  - cbn [qbool list_to_set]. rewrite qsem_cons.
+    pose proof (qsem_pointwise s fa (list_to_set ls) u (upd (aof s ρ) l true) (aof s (upd ρ x true))
+                  (fun j => eq_sym (aof_upd s ρ x l true j HI Hx))) as Ht.
+    pose proof (qsem_pointwise s fa (list_to_set ls) u (upd (aof s ρ) l false) (aof s (upd ρ x false))
+                  (fun j => eq_sym (aof_upd s ρ x l false j HI Hx))) as Hf.
+    destruct fa.
+    + rewrite Ht, Hf, !IH, andb_true_iff. done.
+    + rewrite Ht, Hf, !IH, orb_true_iff. done.
+Qed.
+
+Lemma qbool_ext fa xs f g : (∀ ρ, f ρ = g ρ) → ∀ ρ, qbool fa xs f ρ = qbool fa xs g ρ.
+Proof.
+  intros H. induction xs as [|x xs IH]; intros ρ; cbn [qbool]; [done|]. by rewrite !IH.
+Qed.
+
+Lemma declared_levels s (xs : list nat) :
+  Forall (fun x => is_Some (vars s !! x)) xs →
+  Forall2 (fun k l => vars s !! k = Some l) xs ((fun x => default 0 (vars s !! x)) <$> xs).
+Proof.
+  induction 1 as [|x xs [l Hl] _ IH]; [constructor|]. cbn [fmap list_fmap].
+  constructor; [by rewrite Hl|done].
+Qed.
+
+Lemma quantify_sem s u xs fa r s' :
+  Inv s → last_len s = None → valid s u →
+  Forall (fun x => is_Some (vars s !! x)) xs →
+  quantify u true (remove_dups xs) fa s = (r, s') →
+  ∃ x, r = Ok x ∧ Inv s' ∧ extends s s' ∧ last_len s' = None ∧ valid s' x ∧
+    ∀ ρ, denv s' x ρ = qbool fa xs (denv s u) ρ.
+Proof.
+  intros HI Hoff Hu Hdecl Hrun.
+  destruct (nrf_quantify u true (remove_dups xs) fa s r s' Hoff Hrun) as [Hoff' _].
+  set (lv := fun x => default 0 (vars s !! x)).
+  assert (Hd' : Forall (fun x => is_Some (vars s !! x)) (remove_dups xs)).
+  { rewrite Forall_forall in *. intros x Hx. apply Hdecl. by apply elem_of_remove_dups. }
+  pose proof (map_to_level_set_names s _ _ (declared_levels s _ Hd')) as Hq.
+  assert (Eq : (list_to_set (lv <$> remove_dups xs) : gset nat) = list_to_set (lv <$> xs)).
+  { apply stdpp.sets.set_eq. intros l. rewrite !elem_of_list_to_set, !elem_of_list_fmap.
+    split; intros (x&->&Hx); exists x; (split; [done|]); by apply elem_of_remove_dups. }
+  fold lv in Hq. rewrite Eq in Hq.
+  destruct (quantify_spec s u true (remove_dups xs) fa _ r s' HI Hu Hoff
+              (f_equal fst Hq) Hrun) as (x&->&HI'&He&Hx&HD).
+  exists x. split; [done|]. split; [done|]. split; [done|]. split; [done|]. split; [done|].
+  intros ρ. apply bool_eq_iff. rewrite denv_aof, HD.
+  destruct He as (_&_&El). unfold aof. rewrite <- El. fold (aof s ρ).
+  apply (qsem_qbool s fa u xs (lv <$> xs) HI Hu). by apply declared_levels.
+Qed.
+
+(** ** renaming *)
+Lemma rename_sem s u dvars r s' :
+  Inv s → last_len s = None → valid s u →
+  (∀ x y, (x, y) ∈ dvars → is_Some (vars s !! y)) →
+  rename u dvars s = (r, s') →
+  ∃ x, r = Ok x ∧ Inv s' ∧ extends s s' ∧ last_len s' = None ∧ valid s' x ∧
+    ∀ ρ, denv s' x ρ = denv s u (fun v => ρ (ren dvars v)).
+Proof.
+  intros HI Hoff Hu Hdecl Hrun.
+  destruct (nrf_rename u dvars s r s' Hoff Hrun) as [Hoff' _].
+  destruct (rename_spec s u dvars r s' HI Hu Hoff Hrun Hdecl) as (x&->&HI'&He&Hx&HD).
+  exists x. split; [done|]. split; [done|]. split; [done|]. split; [done|]. split; [done|].
+  intros ρ. rewrite !denv_aof, HD.
+  destruct He as (_&_&El). unfold aof at 1. rewrite <- El. fold (aof s ρ).
+  apply (D_indep_lt s HI); [done|]. intros j Hj.
+  destruct (level_name s j HI Hj) as (v&Hv).
+  assert (Hall : is_Some (vars s !! ren dvars v)).
+  { unfold ren.
+    destruct ((list_to_map (reverse dvars) : gmap nat nat) !! v) as [y|] eqn:Ed;
+      simpl; [|by eexists].
+    apply (Hdecl v). apply elem_of_list_to_map_2 in Ed. by rewrite elem_of_reverse in Ed. }
+  destruct Hall as [l' Hl']. unfold lmap.
+  rewrite (proj2 (rename_level_map_spec s dvars j l' HI)); [|by exists v].
+  unfold aof. rewrite (proj1 (inv_vars _ HI v j) Hv).
+  by rewrite (proj1 (inv_vars _ HI _ l') Hl').
+Qed.
+
+(** ** the evaluator *)
 Definition eval_post (s0 s : st) (a : ast) (r : res Z) (s' : st) : Prop :=
   ∃ u, r = Ok u ∧ Inv s' ∧ extends s s' ∧ last_len s' = None ∧ valid s' u ∧
        ∀ ρ, denv s' u ρ = asem s0 a ρ.
@@ -128,13 +242,13 @@ Definition eval_post (s0 s : st) (a : ast) (r : res Z) (s' : st) : Prop :=
 Lemma ok_ast_extends_decl s0 s n : extends s0 s → declared s0 n → declared s n.
 Proof. intros (_&E&_). unfold declared. by rewrite E. Qed.
 
-Lemma eval_ast_prop a : ∀ s0 s r s',
+Lemma eval_ast_sem_gen a : ∀ s0 s r s',
   Inv s0 → extends s0 s → Inv s → last_len s = None →
-  prop_ast a → ok_ast s0 a →
+  ok_ast s0 a →
   eval_ast a s = (r, s') → eval_post s0 s a r s'.
 Proof.
   induction a as [b|n|z|op a IH|op a1 IH1 a2 IH2|a IHa b IHb c IHc|op ns a IH|ss a IH];
-    intros s0 s r s' HI0 He0 HI Hoff Hp Hok Hrun; [| | | | | |done|done].
+    intros s0 s r s' HI0 He0 HI Hoff Hok Hrun.
   - (* ABool *)
     cbn [eval_ast] in Hrun. unfold ret in Hrun. injection Hrun as <- <-.
     eexists. split; [done|]. split; [done|]. split; [reflexivity|]. split; [done|].
@@ -152,22 +266,21 @@ Proof.
     exists z. split; [done|]. split; [done|]. split; [reflexivity|]. split; [done|].
     split; [done|]. intros ρ. cbn [asem]. by apply denv_extends.
   - (* AOp1 *)
-    cbn [eval_ast ok_ast prop_ast] in *. destruct Hok as ([g Hg]&Hv&Har&Hok).
+    cbn [eval_ast ok_ast] in *. destruct Hok as ([g Hg]&Hv&Har&Hok).
     destruct (eval_ast a s) as [ra s1] eqn:Ea.
-    destruct (IH s0 s ra s1 HI0 He0 HI Hoff Hp Hok Ea) as (u&->&HI1&He1&Hoff1&Hu&HDu).
+    destruct (IH s0 s ra s1 HI0 He0 HI Hoff Hok Ea) as (u&->&HI1&He1&Hoff1&Hu&HDu).
     rewrite (bind_ok _ _ _ _ _ Ea) in Hrun.
     destruct (apply_sem s1 op u None None r s' g HI1 Hoff1 Hv Hg Hu I I Har Hrun)
       as (x&->&HI2&He2&Hoff2&Hx&HDx).
     exists x. split; [done|]. split; [done|]. split; [by etrans|]. split; [done|].
     split; [done|]. intros ρ. cbn [asem]. rewrite Hg, HDx, HDu. done.
   - (* AOp2 *)
-    cbn [eval_ast ok_ast prop_ast] in *. destruct Hok as ([g Hg]&Hv&Har&Hok1&Hok2).
-    destruct Hp as [Hp1 Hp2].
+    cbn [eval_ast ok_ast] in *. destruct Hok as ([g Hg]&Hv&Har&Hok1&Hok2).
     destruct (eval_ast a1 s) as [ra s1] eqn:Ea.
-    destruct (IH1 s0 s ra s1 HI0 He0 HI Hoff Hp1 Hok1 Ea) as (u&->&HI1&He1&Hoff1&Hu&HDu).
+    destruct (IH1 s0 s ra s1 HI0 He0 HI Hoff Hok1 Ea) as (u&->&HI1&He1&Hoff1&Hu&HDu).
     rewrite (bind_ok _ _ _ _ _ Ea) in Hrun.
     destruct (eval_ast a2 s1) as [rb s2] eqn:Eb.
-    destruct (IH2 s0 s1 rb s2 HI0 (transitivity He0 He1) HI1 Hoff1 Hp2 Hok2 Eb)
+    destruct (IH2 s0 s1 rb s2 HI0 (transitivity He0 He1) HI1 Hoff1 Hok2 Eb)
       as (v&->&HI2&He2&Hoff2&Hv2&HDv).
     rewrite (bind_ok _ _ _ _ _ Eb) in Hrun.
     assert (Hu2 : valid s2 u) by (by apply (valid_extends s1 s2)).
@@ -178,17 +291,16 @@ Proof.
     split; [done|]. intros ρ. cbn [asem]. rewrite Hg, HDx. cbn [odenv].
     rewrite (denv_extends s1 s2 u ρ He2 HI1 Hu), HDu, HDv. done.
   - (* AIte *)
-    cbn [eval_ast ok_ast prop_ast] in *. destruct Hok as (Hoka&Hokb&Hokc).
-    destruct Hp as (Hpa&Hpb&Hpc).
+    cbn [eval_ast ok_ast] in *. destruct Hok as (Hoka&Hokb&Hokc).
     destruct (eval_ast a s) as [ra s1] eqn:Ea.
-    destruct (IHa s0 s ra s1 HI0 He0 HI Hoff Hpa Hoka Ea) as (u&->&HI1&He1&Hoff1&Hu&HDu).
+    destruct (IHa s0 s ra s1 HI0 He0 HI Hoff Hoka Ea) as (u&->&HI1&He1&Hoff1&Hu&HDu).
     rewrite (bind_ok _ _ _ _ _ Ea) in Hrun.
     destruct (eval_ast b s1) as [rb s2] eqn:Eb.
-    destruct (IHb s0 s1 rb s2 HI0 (transitivity He0 He1) HI1 Hoff1 Hpb Hokb Eb)
+    destruct (IHb s0 s1 rb s2 HI0 (transitivity He0 He1) HI1 Hoff1 Hokb Eb)
       as (v&->&HI2&He2&Hoff2&Hv2&HDv).
     rewrite (bind_ok _ _ _ _ _ Eb) in Hrun.
     destruct (eval_ast c s2) as [rc s3] eqn:Ec.
-    destruct (IHc s0 s2 rc s3 HI0 (transitivity He0 (transitivity He1 He2)) HI2 Hoff2 Hpc Hokc Ec)
+    destruct (IHc s0 s2 rc s3 HI0 (transitivity He0 (transitivity He1 He2)) HI2 Hoff2 Hokc Ec)
       as (w&->&HI3&He3&Hoff3&Hw3&HDw).
     rewrite (bind_ok _ _ _ _ _ Ec) in Hrun.
     assert (Hu2 : valid s2 u) by (by apply (valid_extends s1 s2)).
@@ -202,4 +314,453 @@ Proof.
     split; [done|]. intros ρ. cbn [asem]. rewrite HDx. cbn [odenv].
     rewrite (denv_extends s2 s3 u ρ He3 HI2 Hu2), (denv_extends s1 s2 u ρ He2 HI1 Hu), HDu.
     rewrite (denv_extends s2 s3 v ρ He3 HI2 Hv2), HDv, HDw. done.
+  - (* AQuant *)
+    cbn [eval_ast ok_ast] in *. destruct Hok as (Hns&Hok).
+    destruct (eval_ast a s) as [ra s1] eqn:Ea.
+    destruct (IH s0 s ra s1 HI0 He0 HI Hoff Hok Ea) as (u&->&HI1&He1&Hoff1&Hu&HDu).
+    rewrite (bind_ok _ _ _ _ _ Ea) in Hrun.
+    apply quantify_sem in Hrun as (x&->&HI2&He2&Hoff2&Hx&HDx); try done.
+    2:{ rewrite Forall_fmap. eapply Forall_impl; [exact Hns|]. intros n Hn. cbn.
+        apply (ok_ast_extends_decl s0 s1); [by etrans|done]. }
+    exists x. split; [done|]. split; [done|]. split; [by etrans|]. split; [done|].
+    split; [done|]. intros ρ. cbn [asem]. rewrite HDx. apply qbool_ext. exact HDu.
+  - (* ASubst *)
+    cbn [eval_ast ok_ast] in *. destruct Hok as (Hss&Hok).
+    destruct (eval_ast a s) as [ra s1] eqn:Ea.
+    destruct (IH s0 s ra s1 HI0 He0 HI Hoff Hok Ea) as (u&->&HI1&He1&Hoff1&Hu&HDu).
+    rewrite (bind_ok _ _ _ _ _ Ea) in Hrun.
+    change (rename u (sub_ids ss) s1 = (r, s')) in Hrun.
+    apply rename_sem in Hrun as (x&->&HI2&He2&Hoff2&Hx&HDx); try done.
+    2:{ intros x y Hxy. unfold sub_ids in Hxy.
+        apply elem_of_list_fmap in Hxy as ([o n]&[= -> ->]&Hin).
+        rewrite Forall_forall in Hss.
+        apply (ok_ast_extends_decl s0 s1 n); [by etrans|]. exact (Hss _ Hin). }
+    exists x. split; [done|]. split; [done|]. split; [by etrans|]. split; [done|].
+    split; [done|]. intros ρ. cbn [asem]. rewrite HDx. apply HDu.
 Qed.
+
+(** [eval_ast] on a manager satisfying the invariant, dynamic reordering
+    disabled: the result denotes the reading [asem] of the tree, every old
+    reference is kept ([extends]), the invariant holds afterwards *)
+Theorem eval_ast_sem s a r s' :
+  Inv s → last_len s = None → ok_ast s a →
+  eval_ast a s = (r, s') →
+  ∃ u, r = Ok u ∧ Inv s' ∧ extends s s' ∧ last_len s' = None ∧ valid s' u ∧
+       ∀ ρ, denv s' u ρ = asem s a ρ.
+Proof. intros HI Hoff Hok Hrun. by apply (eval_ast_sem_gen a s s r s'). Qed.
+
+(** [add_expr] on the token spellings: lexing, parsing, evaluation under the
+    decorator *)
+Theorem add_expr_sem lt rw P spellings ts a s r s' :
+  Inv s → last_len s = None →
+  lex_all lt rw spellings = Some ts → parse P ts = Some a → ok_ast s a →
+  add_expr lt rw P spellings s = (r, s') →
+  ∃ u, r = Ok u ∧ Inv s' ∧ extends s s' ∧ last_len s' = None ∧ valid s' u ∧
+       ∀ ρ, denv s' u ρ = asem s a ρ.
+Proof.
+  intros HI Hoff Hlex Hparse Hok Hrun. unfold add_expr in Hrun.
+  apply try_to_reorder_inert in Hrun as (r1&s1&Hrun&Hcase).
+  set (s0 := s <| rctx := true |>) in *.
+  rewrite Hlex in Hrun. cbn [of_opt] in Hrun.
+  rewrite (bind_ok _ _ s0 ts s0) in Hrun by done.
+  rewrite Hparse in Hrun. cbn [of_opt] in Hrun.
+  rewrite (bind_ok _ _ s0 a s0) in Hrun by done.
+  apply (eval_ast_sem_gen a s s0) in Hrun as (u&->&HI1&He1&Hoff1&Hu&HD);
+    [|done|done|by apply Inv_rctx|done|done].
+  destruct Hcase as [[? _]|[-> ->]]; [done|].
+  exists u. split; [done|]. split; [by apply Inv_rctx|]. split; [done|]. split; [done|].
+  split; [done|]. intros ρ. rewrite <- HD. unfold denv. by rewrite D_rctx.
+Qed.
+
+(** ** [to_expr] *)
+
+(** the harness's variable names ["v<k>"] read back *)
+Lemma is_digit_pretty_char d : (d < 10)%N → is_digit (pretty_N_char d) = true.
+Proof.
+  intros Hd.
+  assert (d = 0 ∨ d = 1 ∨ d = 2 ∨ d = 3 ∨ d = 4 ∨ d = 5 ∨ d = 6 ∨ d = 7 ∨ d = 8 ∨ d = 9)%N
+    as H by lia.
+  destruct_or!; subst; reflexivity.
+Qed.
+Lemma all_digits_pretty_go x s :
+  all_chars is_digit (pretty_N_go x s) = all_chars is_digit s.
+Proof.
+  revert s. induction (N.lt_wf_0 x) as [x _ IH]; intros s.
+  assert (x = 0 ∨ 0 < x)%N as [->|Hx] by lia; [by rewrite pretty_N_go_0|].
+  rewrite pretty_N_go_step by done. rewrite IH by (by apply N.div_lt).
+  cbn [all_chars]. by rewrite is_digit_pretty_char by (by apply N.mod_lt).
+Qed.
+Lemma pretty_go_nonempty x s : s ≠ "" → pretty_N_go x s ≠ "".
+Proof.
+  revert s. induction (N.lt_wf_0 x) as [x _ IH]; intros s Hs.
+  assert (x = 0 ∨ 0 < x)%N as [->|Hx] by lia; [by rewrite pretty_N_go_0|].
+  rewrite pretty_N_go_step by done. apply IH; [by apply N.div_lt|done].
+Qed.
+Lemma all_digits_pretty (x : N) : all_chars is_digit (pretty x) = true.
+Proof.
+  unfold pretty, pretty_N. case_decide; [done|]. by rewrite all_digits_pretty_go.
+Qed.
+Lemma pretty_nonempty (x : N) : pretty x ≠ "".
+Proof.
+  unfold pretty, pretty_N. case_decide as Hx; [done|].
+  rewrite pretty_N_go_step by lia. by apply pretty_go_nonempty.
+Qed.
+
+Lemma name_id_var_name v : name_id (var_name v) = Some v.
+Proof.
+  unfold var_name. change (pretty v) with (pretty (N.of_nat v)).
+  change ("v" +:+ pretty (N.of_nat v)) with (String "v"%char (pretty (N.of_nat v))).
+  cbn [name_id]. rewrite all_digits_pretty.
+  rewrite bool_decide_false by apply pretty_nonempty. cbn [andb negb].
+  rewrite digits_val_pretty. f_equal. lia.
+Qed.
+Lemma name_var_name v : name_or_undeclared (var_name v) = v.
+Proof. unfold name_or_undeclared. by rewrite name_id_var_name. Qed.
+
+(** [to_expr_rec] producing the syntax tree instead of its text *)
+Fixpoint to_expr_ast (fuel : nat) (u : Z) : MS ast :=
+  match fuel with
+  | O => raise EFuel
+  | S f =>
+      if decide (u = 1)%Z then ret (ABool true) else
+      if decide (u = -1)%Z then ret (ABool false) else
+      t <- getsuccZ u ;;
+      assert (negb (is_term t)) ;;;
+      s <- get ;;
+      v <- of_opt EKey (lvl2var s !! t_lvl t) ;;
+      p <- to_expr_ast f (t_lo t) ;;
+      q <- to_expr_ast f (t_hi t) ;;
+      let e := if bool_decide (p = ABool false ∧ q = ABool true) then AVar (var_name v)
+               else AIte (AVar (var_name v)) q p in
+      ret (if decide (u < 0)%Z then AOp1 "!" e else e)
+  end.
+
+(** the text of such a tree, as [to_expr_rec] writes it *)
+Fixpoint expr_text (a : ast) : string :=
+  match a with
+  | ABool b => if b then "TRUE" else "FALSE"
+  | AVar n => n
+  | AOp1 _ e => "(~ " +:+ expr_text e +:+ ")"
+  | AIte g q p => "ite(" +:+ expr_text g +:+ ", " +:+ expr_text q +:+ ", " +:+ expr_text p +:+ ")"
+  | _ => ""
+  end.
+
+(** the shapes [to_expr_ast] produces *)
+Fixpoint te_shape (a : ast) : Prop :=
+  match a with
+  | ABool _ => True
+  | AVar n => ∃ v, n = var_name v
+  | AOp1 op e => op = "!" ∧ te_shape e
+  | AIte g q p => (∃ v, g = AVar (var_name v)) ∧ te_shape q ∧ te_shape p
+  | _ => False
+  end.
+
+Lemma expr_text_false a : te_shape a → expr_text a = "FALSE" ↔ a = ABool false.
+Proof.
+  destruct a as [[]| | | | | | |]; cbn [te_shape expr_text]; try done.
+  - intros [v ->]. unfold var_name. split; [|done].
+    change ("v" +:+ pretty v) with (String "v"%char (pretty v)). done.
+Qed.
+Lemma expr_text_true a : te_shape a → expr_text a = "TRUE" ↔ a = ABool true.
+Proof.
+  destruct a as [[]| | | | | | |]; cbn [te_shape expr_text]; try done.
+  - intros [v ->]. unfold var_name. split; [|done].
+    change ("v" +:+ pretty v) with (String "v"%char (pretty v)). done.
+Qed.
+
+(** [to_expr_rec] is [to_expr_ast] followed by writing the text *)
+Lemma to_expr_rec_text fuel : ∀ u s,
+  match to_expr_ast fuel u s with
+  | (Ok a, s') => te_shape a ∧ to_expr_rec fuel u s = (Ok (expr_text a), s')
+  | (Err e, s') => to_expr_rec fuel u s = (Err e, s')
+  end.
+Proof.
+  induction fuel as [|f IH]; intros u s; [done|].
+  cbn [to_expr_ast to_expr_rec].
+  destruct (decide (u = 1)%Z); [done|]. destruct (decide (u = -1)%Z); [done|].
+  destruct (getsuccZ u s) as [[t|e] s1] eqn:Et; cycle 1.
+  { by rewrite !(bind_err _ _ _ _ _ Et). }
+  rewrite !(bind_ok _ _ _ _ _ Et).
+  destruct (assert (S:=st) (negb (is_term t)) s1) as [[[]|e] s2] eqn:Ea; cycle 1.
+  { by rewrite !(bind_err _ _ _ _ _ Ea). }
+  rewrite !(bind_ok _ _ _ _ _ Ea). cbn [bind get].
+  destruct (of_opt (S:=st) EKey (lvl2var s2 !! t_lvl t) s2) as [[v|e] s3] eqn:Ev; cycle 1.
+  { by rewrite !(bind_err _ _ _ _ _ Ev). }
+  rewrite !(bind_ok _ _ _ _ _ Ev).
+  pose proof (IH (t_lo t) s3) as IHp.
+  destruct (to_expr_ast f (t_lo t) s3) as [[p|e] s4] eqn:Ep; cycle 1.
+  { rewrite (bind_err _ _ _ _ _ Ep). by rewrite (bind_err _ _ _ _ _ IHp). }
+  destruct IHp as [Hsp IHp].
+  rewrite (bind_ok _ _ _ _ _ Ep), (bind_ok _ _ _ _ _ IHp).
+  pose proof (IH (t_hi t) s4) as IHq.
+  destruct (to_expr_ast f (t_hi t) s4) as [[q|e] s5] eqn:Eq; cycle 1.
+  { rewrite (bind_err _ _ _ _ _ Eq). by rewrite (bind_err _ _ _ _ _ IHq). }
+  destruct IHq as [Hsq IHq].
+  rewrite (bind_ok _ _ _ _ _ Eq), (bind_ok _ _ _ _ _ IHq).
+  unfold ret.
+  assert (Hb : bool_decide (expr_text p = "FALSE" ∧ expr_text q = "TRUE")
+             = bool_decide (p = ABool false ∧ q = ABool true)).
+  { apply bool_decide_ext. by rewrite expr_text_false, expr_text_true. }
+  rewrite Hb. destruct (bool_decide (p = ABool false ∧ q = ABool true)).
+  - destruct (decide (u < 0)%Z); cbn [te_shape expr_text]; (split; [|done]); eauto.
+  - destruct (decide (u < 0)%Z); cbn [te_shape expr_text]; (split; [|done]); eauto 10.
+Qed.
+
+Lemma ok_not : is_Some (conn_sem "!") ∧ "!" ∈ py_vocab ∧ arity_ok "!" None None = true.
+Proof.
+  split; [by eexists|]. split; [|done]. apply (bool_decide_eq_true_1 _). by vm_compute.
+Qed.
+
+(** the tree of a reference: accepted by the evaluator and meaning the
+    function of the reference; the manager is only read *)
+Lemma to_expr_ast_spec fuel : ∀ s u,
+  Inv s → valid s u → nvars s - lvl_of s u < fuel →
+  ∃ a, to_expr_ast fuel u s = (Ok a, s) ∧ ok_ast s a ∧ ∀ ρ, asem s a ρ = denv s u ρ.
+Proof.
+  induction fuel as [|f IH]; intros s u HI Hu Hfuel; [lia|].
+  cbn [to_expr_ast].
+  destruct (node_cases s HI u Hu) as [[E El]|(t&Ht&Hn1&Hlo&Hl&Hln&Hvl&Hvh&Hhp&Hll&Hlh&Hne)].
+  { destruct (absn_1 u E (proj1 Hu)) as [->| ->].
+    - rewrite decide_True by done. exists (ABool true). split; [done|]. split; [done|].
+      intros ρ. unfold denv. by rewrite (D_1 s HI).
+    - rewrite decide_False by done. rewrite decide_True by done.
+      exists (ABool false). split; [done|]. split; [done|].
+      intros ρ. unfold denv. by rewrite (D_m1 s HI). }
+  rewrite decide_False by (intros ->; done). rewrite decide_False by (intros ->; done).
+  rewrite (bind_ok _ _ _ _ _ (getsuccZ_ok s u t (proj1 Hu) Ht)).
+  assert (Hnt : negb (is_term t) = true).
+  { unfold is_term. by rewrite bool_decide_false. }
+  rewrite Hnt. cbn [assert]. rewrite (bind_ok _ _ s tt s) by done. cbn [bind get].
+  destruct (proj1 (inv_lvls _ HI (t_lvl t)) Hln) as [v Hv]. rewrite Hv. cbn [of_opt].
+  rewrite (bind_ok _ _ s v s) by done.
+  destruct (IH s (t_lo t) HI Hvl) as (p&Ep&Hokp&Hp); [lia|].
+  destruct (IH s (t_hi t) HI Hvh) as (q&Eq&Hokq&Hq); [lia|].
+  rewrite (bind_ok _ _ _ _ _ Ep), (bind_ok _ _ _ _ _ Eq).
+  set (e := if bool_decide (p = ABool false ∧ q = ABool true) then AVar (var_name v)
+            else AIte (AVar (var_name v)) q p).
+  assert (Hdecl : declared s (var_name v)).
+  { unfold declared. rewrite name_var_name. exists (t_lvl t). by apply (inv_vars _ HI). }
+  assert (Hoke : ok_ast s e).
+  { subst e. case_bool_decide; cbn [ok_ast]; [done|]. by split_and!. }
+  assert (He : ∀ ρ, asem s e ρ = if ρ v then denv s (t_hi t) ρ else denv s (t_lo t) ρ).
+  { intros ρ. subst e. case_bool_decide as Hpq; cbn [asem]; rewrite name_var_name.
+    - destruct Hpq as [-> ->]. rewrite <- Hp, <- Hq. cbn [asem]. by destruct (ρ v).
+    - by rewrite Hp, Hq. }
+  eexists. split; [reflexivity|].
+  assert (HDu : ∀ ρ, denv s u ρ = xorb (bool_decide (u < 0)%Z)
+                         (if ρ v then denv s (t_hi t) ρ else denv s (t_lo t) ρ)).
+  { intros ρ. unfold denv. rewrite (D_step s HI u _ t Hu Ht Hn1). by rewrite Hv. }
+  destruct (decide (u < 0)%Z) as [Hneg|Hpos].
+  - split.
+    + cbn [ok_ast]. destruct ok_not as (?&?&?). by split_and!.
+    + intros ρ. cbn [asem]. rewrite HDu, He. rewrite bool_decide_true by done. reflexivity.
+  - split; [done|]. intros ρ. rewrite HDu, He. rewrite bool_decide_false by done.
+    by destruct (if ρ v then _ else _).
+Qed.
+
+(** AST-level round trip: evaluating the tree of [u] returns [u] itself.
+    (The evaluation may add the plain variable nodes [v] and cache entries,
+    so the state is an extension, not the same state.) *)
+Theorem to_expr_roundtrip_ast s u :
+  Inv s → valid s u → last_len s = None →
+  ∃ a, to_expr_ast (S (S (nvars s))) u s = (Ok a, s) ∧
+       to_expr u s = (Ok (expr_text a), s) ∧
+       ∀ r s', eval_ast a s = (r, s') →
+         r = Ok u ∧ Inv s' ∧ extends s s' ∧ last_len s' = None.
+Proof.
+  intros HI Hu Hoff.
+  destruct (to_expr_ast_spec (S (S (nvars s))) s u HI Hu) as (a&Ea&Hok&Hsem); [lia|].
+  exists a. split; [done|]. split.
+  { unfold to_expr. cbn [bind get]. unfold ensure. rewrite (proj2 (mem_valid s u) Hu).
+    rewrite (bind_ok _ _ s tt s) by done.
+    pose proof (to_expr_rec_text (S (S (nvars s))) u s) as H. rewrite Ea in H. by destruct H. }
+  intros r s' Hrun.
+  destruct (eval_ast_sem s a r s' HI Hoff Hok Hrun) as (x&->&HI'&He&Hoff'&Hx&HD).
+  split; [|done]. f_equal.
+  apply (canonical_names s' HI'); [done|by apply (valid_extends s s')|].
+  intros ρ. rewrite HD, Hsem. symmetry. by apply denv_extends.
+Qed.
+
+(** ** the text of [to_expr] as spellings and tokens.
+    The character-level lexer (PLY regular expressions) is not part of the
+    model; [te_spellings a] is the list of lexemes of [expr_text a]. *)
+Fixpoint te_spellings (a : ast) : list string :=
+  match a with
+  | ABool b => [if b then "TRUE" else "FALSE"]
+  | AVar n => [n]
+  | AOp1 _ e => "(" :: "~" :: te_spellings e ++ [")"]
+  | AIte g q p =>
+      "ite" :: "(" :: te_spellings g ++ "," :: te_spellings q ++ "," :: te_spellings p ++ [")"]
+  | _ => []
+  end.
+
+(** the printer policy of [to_expr]: negations in parentheses, nothing else *)
+Definition par_te (k : nat) (a : ast) : bool :=
+  match a with AOp1 _ _ => true | _ => par_min code_prec code_tyof k a end.
+Definition te_tokens : ast → list token := print_gen code_prec code_tyof par_te.
+
+Lemma parse_te_tokens a : wf_ast code_tyof a → parse code_prec (te_tokens a) = Some a.
+Proof.
+  intros Hwf. apply parse_print_gen; [apply code_prec_wf| |done].
+  intros k x _ Hp. destruct x; simpl in Hp; try done;
+    unfold par_min in Hp; apply bool_decide_eq_false in Hp; lia.
+Qed.
+
+Lemma te_shape_wf a : te_shape a → wf_ast code_tyof a.
+Proof.
+  induction a as [b|n|z|op a IH|op a1 IH1 a2 IH2|a IHa b IHb c IHc|op ns a IH|ss a IH];
+    cbn [te_shape wf_ast]; try done.
+  - intros [_ H]. by apply IH.
+  - intros ([v ->]&Hq&Hp). split; [done|]. split; [by apply IHb|by apply IHc].
+Qed.
+
+Lemma lex_all_app lt rw l1 l2 :
+  lex_all lt rw (l1 ++ l2) =
+  match lex_all lt rw l1, lex_all lt rw l2 with
+  | Some a, Some b => Some (a ++ b)%list
+  | _, _ => None
+  end.
+Proof.
+  induction l1 as [|sp l1 IH]; cbn [lex_all app].
+  - by destruct (lex_all lt rw l2).
+  - rewrite IH. destruct (lex1 lt rw sp); [|done].
+    destruct (lex_all lt rw l1); [|done]. by destruct (lex_all lt rw l2).
+Qed.
+
+Lemma all_chars_impl (p q : ascii → bool) s :
+  (∀ c, p c = true → q c = true) → all_chars p s = true → all_chars q s = true.
+Proof.
+  intros H. induction s as [|c s IH]; [done|]. cbn [all_chars].
+  rewrite !andb_true_iff. intros [? ?]. split; [by apply H|by apply IH].
+Qed.
+
+Lemma lex1_var_name v :
+  lex1 lex_alias reserved_words (var_name v) = Some (Tok "NAME" (var_name v)).
+Proof.
+  unfold var_name. change (pretty v) with (pretty (N.of_nat v)).
+  change ("v" +:+ pretty (N.of_nat v)) with (String "v"%char (pretty (N.of_nat v))).
+  cbn [lex1]. change (is_name_start "v"%char) with true. cbv iota.
+  rewrite (all_chars_impl is_digit is_name_char).
+  2:{ intros c Hc. unfold is_name_char. rewrite Hc. by rewrite orb_true_r. }
+  2:{ apply all_digits_pretty. }
+  cbn [negb]. cbv iota.
+  assert (list_find (fun kv : string * string =>
+            bool_decide (kv.1 = String "v"%char (pretty (N.of_nat v)))) reserved_words = None) as ->.
+  { apply list_find_None. unfold reserved_words.
+    repeat (apply Forall_cons; split;
+            [intros H; apply bool_decide_unpack in H; discriminate H|]).
+    apply Forall_nil_2. }
+  reflexivity.
+Qed.
+
+Lemma wrap_te k e : te_shape e → k ≤ S (bp code_prec "NOT") →
+  wrap (par_te k e) (pr code_prec code_tyof par_te e) = te_tokens e.
+Proof.
+  intros Hs Hk. unfold te_tokens, print_gen. f_equal.
+  destruct e; cbn [te_shape] in Hs; try done; unfold par_te, par_min; cbn [plev];
+    rewrite !bool_decide_false by lia; done.
+Qed.
+
+Lemma lex_te a : te_shape a → lex (te_spellings a) = Some (te_tokens a).
+Proof.
+  induction a as [b|n|z|op a IH|op a1 IH1 a2 IH2|a IHa b IHb c IHc|op ns a IH|ss a IH];
+    cbn [te_shape]; try done.
+  - intros _. by destruct b.
+  - intros [v ->]. unfold lex. cbn [te_spellings lex_all]. by rewrite lex1_var_name.
+  - intros [-> Hs]. specialize (IH Hs). unfold lex in *. cbn [te_spellings].
+    change (("(" :: "~" :: te_spellings a ++ [")"])%list) with ((["("; "~"] ++ te_spellings a ++ [")"])%list).
+    rewrite !lex_all_app, IH.
+    change (lex_all lex_alias reserved_words ["("; "~"])
+      with (Some [Tok "LPAREN" "("; Tok "NOT" "!"]).
+    change (lex_all lex_alias reserved_words [")"]) with (Some [Tok "RPAREN" ")"]).
+    cbv iota. f_equal. unfold te_tokens at 2, print_gen. cbn [par_te wrap pr].
+    rewrite (wrap_te _ a Hs) by lia. reflexivity.
+  - intros ([v ->]&Hq&Hp). specialize (IHb Hq). specialize (IHc Hp).
+    unfold lex in *. cbn [te_spellings].
+    change (("ite" :: "(" :: [var_name v] ++ "," :: te_spellings b ++ "," :: te_spellings c ++ [")"])%list)
+      with ((["ite"; "("] ++ [var_name v] ++ [","] ++ te_spellings b ++ [","] ++ te_spellings c ++ [")"])%list).
+    rewrite !lex_all_app, IHb, IHc.
+    change (lex_all lex_alias reserved_words ["ite"; "("])
+      with (Some [Tok "ITE" "ite"; Tok "LPAREN" "("]).
+    change (lex_all lex_alias reserved_words [","]) with (Some [Tok "COMMA" ","]).
+    change (lex_all lex_alias reserved_words [")"]) with (Some [Tok "RPAREN" ")"]).
+    cbn [lex_all]. rewrite lex1_var_name. cbv iota. reflexivity.
+Qed.
+
+(** [add_expr(to_expr(u)) = u] on the lexemes of the text: lexing, parsing
+    and evaluation under the decorator return the very reference [u] *)
+Theorem to_expr_roundtrip s u :
+  Inv s → valid s u → last_len s = None →
+  ∃ a, to_expr u s = (Ok (expr_text a), s) ∧
+       lex (te_spellings a) = Some (te_tokens a) ∧
+       parse code_prec (te_tokens a) = Some a ∧
+       ∀ r s', add_expr lex_alias reserved_words code_prec (te_spellings a) s = (r, s') →
+         r = Ok u ∧ Inv s' ∧ extends s s' ∧ last_len s' = None.
+Proof.
+  intros HI Hu Hoff.
+  destruct (to_expr_ast_spec (S (S (nvars s))) s u HI Hu) as (a&Ea&Hok&Hsem); [lia|].
+  pose proof (to_expr_rec_text (S (S (nvars s))) u s) as Ht. rewrite Ea in Ht.
+  destruct Ht as [Hshape Ht].
+  exists a. split.
+  { unfold to_expr. cbn [bind get]. unfold ensure. rewrite (proj2 (mem_valid s u) Hu).
+    by rewrite (bind_ok _ _ s tt s) by done. }
+  pose proof (lex_te a Hshape) as Hlex.
+  pose proof (parse_te_tokens a (te_shape_wf a Hshape)) as Hparse.
+  split; [done|]. split; [done|].
+  intros r s' Hrun.
+  destruct (add_expr_sem _ _ _ _ _ a s r s' HI Hoff Hlex Hparse Hok Hrun)
+    as (x&->&HI'&He&Hoff'&Hx&HD).
+  split; [|done]. f_equal.
+  apply (canonical_names s' HI'); [done|by apply (valid_extends s s')|].
+  intros ρ. rewrite HD, Hsem. symmetry. by apply denv_extends.
+Qed.
+
+(** ** a checker for [ok_ast] (to discharge the hypothesis by computation) *)
+Fixpoint ok_astb (s0 : st) (a : ast) : bool :=
+  let decl n := bool_decide (is_Some (vars s0 !! name_or_undeclared n)) in
+  match a with
+  | ABool _ => true
+  | AVar n => decl n
+  | ANum z => mem z s0
+  | AOp1 op a =>
+      match conn_sem op with Some _ => true | None => false end &&
+      bool_decide (op ∈ py_vocab) && arity_ok op None None && ok_astb s0 a
+  | AOp2 op a b =>
+      match conn_sem op with Some _ => true | None => false end &&
+      bool_decide (op ∈ py_vocab) && arity_ok op (Some 1%Z) None &&
+      ok_astb s0 a && ok_astb s0 b
+  | AIte a b c => ok_astb s0 a && ok_astb s0 b && ok_astb s0 c
+  | AQuant _ ns a => forallb decl ns && ok_astb s0 a
+  | ASubst subs a => forallb (fun on => decl on.2) subs && ok_astb s0 a
+  end.
+
+Lemma ok_astb_ok s0 a : ok_astb s0 a = true → ok_ast s0 a.
+Proof.
+  induction a as [b|n|z|op a IH|op a1 IH1 a2 IH2|a IHa b IHb c IHc|op ns a IH|ss a IH];
+    cbn [ok_astb ok_ast]; rewrite ?andb_true_iff.
+  - done.
+  - by intros ?%bool_decide_eq_true.
+  - by intros ?%mem_valid.
+  - intros [[[Hc ?%bool_decide_eq_true] ?] ?]. split_and!; try done; [|by apply IH].
+    destruct (conn_sem op); [by eexists|done].
+  - intros [[[[Hc ?%bool_decide_eq_true] ?] ?] ?].
+    split_and!; try done; [|by apply IH1|by apply IH2].
+    destruct (conn_sem op); [by eexists|done].
+  - intros [[? ?] ?]. split_and!; [by apply IHa|by apply IHb|by apply IHc].
+  - intros [Hns ?]. split; [|by apply IH]. rewrite forallb_forall in Hns.
+    apply Forall_forall. intros n Hn. apply elem_of_list_In in Hn.
+    by apply Hns, bool_decide_eq_true in Hn.
+  - intros [Hss ?]. split; [|by apply IH]. rewrite forallb_forall in Hss.
+    apply Forall_forall. intros on Hn. apply elem_of_list_In in Hn.
+    by apply Hss, bool_decide_eq_true in Hn.
+Qed.
+
+(** the operator values the lexer produces, except [=], are accepted *)
+Lemma canonical_values_ok :
+  forallb (fun v => match conn_sem v with Some _ => true | None => false end &&
+                    bool_decide (v ∈ py_vocab) && arity_ok v (Some 1%Z) None)
+          ["&"; "|"; "#"; "^"; "=>"; "<->"; "-"] = true ∧
+  (match conn_sem "!" with Some _ => true | None => false end &&
+   bool_decide ("!" ∈ py_vocab) && arity_ok "!" None None) = true ∧
+  conn_sem "=" = None.
+Proof. by vm_compute. Qed.
